@@ -255,7 +255,12 @@ class HTTP1Connection(httputil.HTTPConnection):
                         )
                     # TODO: client delegates will get headers_received twice
                     # in the case of a 100-continue.  Document or change?
-                    await self._read_message(delegate)
+                    #
+                    # The nested call reads the final response and reports
+                    # it (or its failure) to the delegate; there is nothing
+                    # left to read for the interim response itself.
+                    need_delegate_close = False
+                    return await self._read_message(delegate)
             else:
                 if headers.get("Expect") == "100-continue" and not self._write_finished:
                     self.stream.write(b"HTTP/1.1 100 (Continue)\r\n\r\n")
